@@ -264,9 +264,11 @@ static NS long item_check(void *node, const char *what)
 	return (long)it->id;
 }
 static void free_cb(struct rcu_head *h) { free(caa_container_of(h, struct item, rh)); }
+static NS int i_am_solo(void) { return solo_mode[ds_scen_index()] && ds_solo_active(); }
 static void dispose(struct item *it)
 {
 	/* the remover owns the node now */
+	if (i_am_solo()) { keep(it); return; }	/* C17: a grace period would (legitimately) wait for suspended readers */
 	if (sync_mode == S_RCU) {
 		if (free_mode == 2 && !reuse) { F(call_rcu)(&it->rh, free_cb); note(CF_FREED); return; }
 		if (free_mode == 0 && !reuse) { keep(it); return; }
@@ -310,12 +312,21 @@ static void rcu_in(void) { if (sync_mode == S_RCU) RLOCK(); }
 static void rcu_out(void) { if (sync_mode == S_RCU) RUNLOCK(); }
 
 /* C17 bookkeeping: an operation issued after the gate runs solo and must neither reach a wait hint nor take more than a bounded number of steps */
-static NS void solo_begin(void) { solo_steps0 = ds_my_steps(); solo_yields0 = ds_solo_yields(); }
+static NS int touches(const struct lin_op *o, long q);
+static long solo_q;
+static NS void solo_begin_q(long q) { solo_q = q; solo_steps0 = ds_my_steps(); solo_yields0 = ds_solo_yields(); }
 static NS void solo_end(const char *what, long r)
 {
 	int me = ds_scen_index();
 	if (!solo_mode[me] || !ds_solo_active()) return;
 	ds_flag(CF_SOLO_RAN);
+	if (r == R_WOULDBLOCK) {
+		/* allowed only while an operation of a (suspended) thread on that container is in flight; all store buffers were drained at the freeze */
+		int inflight = 0;
+		for (int i = 0; i < nhist; i++) if (hist[i].ret == ~0ul && hist[i].thr != me && touches(&hist[i], solo_q)) inflight = 1;
+		if (!inflight) ds_fail("progress: %s on container %ld returned WOULDBLOCK although no other operation on it is in progress (all other threads are suspended between operations)", what, solo_q);
+		ds_flag(CF_WOULDBLOCK);
+	}
 	unsigned long st = ds_my_steps() - solo_steps0, y = ds_solo_yields() - solo_yields0;
 	long bound = ds_cfg("solo_bound", 400);
 	if (y) ds_fail("progress: %s (result %ld), run solo with every other thread suspended, reached a wait hint (cpu_relax/poll/futex/mutex) %lu times", what, r, y);
@@ -329,7 +340,7 @@ static void do_ins(int q)
 	struct item *it = mk_item(id);
 	long r = R_NA;
 	int h = h_begin(L_INS, q, id);
-	solo_begin();
+	solo_begin_q(q);
 	switch (kind) {
 	case K_WFCQ: cds_wfcq_node_init(&it->n.cq); r = cds_wfcq_enqueue(&cq[q].h, &cq[q].t, &it->n.cq); break;
 	case K_WFQ: cds_wfq_node_init(&it->n.wq); cds_wfq_enqueue(&wq[q], &it->n.wq); break;
@@ -346,7 +357,7 @@ static void do_rem(int q, int v)
 {
 	void *n = NULL; int state = 0, has_state = 0;
 	int h = h_begin(L_REM, q, v);
-	solo_begin();
+	solo_begin_q(q);
 	switch (kind) {
 	case K_WFCQ:
 		switch (v) {
@@ -401,7 +412,7 @@ static void do_splice(int d, int s, int v)
 	enum cds_wfcq_ret rc;
 	if (kind != K_WFCQ || d == s) return;
 	int h = h_begin(L_SPL_DRAIN, s, d);
-	solo_begin();
+	solo_begin_q(s);
 	if (v == 0) rc = cds_wfcq_splice_blocking(&cq[d].h, &cq[d].t, &cq[s].h, &cq[s].t);
 	else {
 		xlock(s);
@@ -423,7 +434,7 @@ static void do_iter(int q, int v)
 	uint64_t seq = 0; int complete = 1, cnt = 0;
 	struct cds_wfcq_node *n;
 	int h = h_begin(L_SNAP, q, v);
-	solo_begin();
+	solo_begin_q(q);
 	xlock(q);
 	if (v == 0) {
 		for (n = __cds_wfcq_first_blocking(&cq[q].h, &cq[q].t); n; n = __cds_wfcq_next_blocking(&cq[q].h, &cq[q].t, n)) {
@@ -448,7 +459,7 @@ static void do_popall(int q, int v, int w)
 	struct item *got[MAXITEM + 1]; int ng = 0; uint64_t seq = 0; int wb = 0;
 	if (kind != K_WFS && kind != K_LFS) return;
 	int h = h_begin(L_POPALL, q, v);
-	solo_begin();
+	solo_begin_q(q);
 	if (kind == K_WFS) {
 		struct cds_wfs_head *head; struct cds_wfs_node *n;
 		if (v == 0) head = cds_wfs_pop_all_blocking(&ws[q]);
@@ -465,7 +476,11 @@ static void do_popall(int q, int v, int w)
 					if (ng >= MAXITEM) ds_fail("pop_all chain does not terminate: more than %d nodes", MAXITEM);
 					seq = sq_push_back(seq, item_check(n, "pop_all iteration")); got[ng++] = (struct item *)n;
 					struct cds_wfs_node *nx;
-					while ((nx = cds_wfs_next_nonblocking(n)) == CDS_WFS_WOULDBLOCK) { wb = 1; solo_end("non-blocking stack iteration", R_WOULDBLOCK); ds_yield(); solo_begin(); }
+					while ((nx = cds_wfs_next_nonblocking(n)) == CDS_WFS_WOULDBLOCK) {
+						wb = 1; solo_end("non-blocking stack iteration", R_WOULDBLOCK);
+						if (i_am_solo()) { nx = NULL; break; }	/* the suspended pusher never completes: abandon the rest of the chain */
+						ds_yield(); solo_begin_q(q);
+					}
 					n = nx;
 				}
 			}
@@ -491,7 +506,7 @@ static void do_empty(int q)
 	int r;
 	if (kind != K_WFCQ && kind != K_WFS && kind != K_LFS) return;
 	int h = h_begin(L_EMPTY, q, 0);
-	solo_begin();
+	solo_begin_q(q);
 	if (kind == K_WFCQ) r = cds_wfcq_empty(&cq[q].h, &cq[q].t);
 	else if (kind == K_WFS) r = cds_wfs_empty(&ws[q]);
 	else r = cds_lfs_empty(&ls[q]);
@@ -543,6 +558,9 @@ static void *thread_main(void *arg)
 #ifdef FL_QSBR
 		F(thread_offline)();
 #endif
+#ifdef FL_BP
+		RLOCK(); RUNLOCK();	/* bp registers a thread on its first use; "registered thread" for the progress checks */
+#endif
 	}
 	run_program((int)(long)arg);
 #ifndef FL_BP
@@ -576,6 +594,7 @@ static void scenario(void)
 		case K_LFQ: cds_lfq_init_rcu(&lq[q], F(call_rcu)); break;
 		}
 	}
+	if (ds_cfg("solo", -1) >= 0 && uses_rcu()) (void) F(get_default_call_rcu_data)();	/* C17: the one-time creation of the default call_rcu helper is not part of any operation */
 	run_program(0);
 	for (int t = 1; t < np; t++) tids[t] = ds_spawn(thread_main, (void *)(long)t);
 	if (ds_cfg("solo", -1) >= 0) {
